@@ -434,6 +434,7 @@ class Scheduler:
 
 class Lock:
     _kind = "Lock"
+    _hook = None
 
     def __init__(self):
         self._owner = None
@@ -468,6 +469,8 @@ class Lock:
         if self._owner is None:
             raise RuntimeError("release unlocked lock")
         self._owner = None
+        if self._hook is not None:
+            self._hook("release", self)
         if me is not None and s.post_yield:
             s.yield_point(me, "Lock.released")
 
@@ -626,6 +629,8 @@ class Condition:
 
 
 class Event:
+    _hook = None
+
     def __init__(self):
         self._flag = False
 
@@ -642,6 +647,8 @@ class Event:
         if me is not None:
             s.yield_point(me, "Event.set")
         self._flag = True
+        if self._hook is not None:
+            self._hook("set", self)
         if me is not None and s.post_yield:
             s.yield_point(me, "Event.was_set")
 
@@ -804,6 +811,7 @@ def get_ident():
 
 class Queue:
     """FIFO queue shim (unbounded only). Each method is one primitive operation."""
+    _hook = None
 
     def __init__(self, maxsize=0):
         if maxsize and maxsize > 0:
@@ -833,6 +841,8 @@ class Queue:
             s.yield_point(me, "Queue.put")
         self._q.append(item)
         self._unfinished += 1
+        if self._hook is not None:
+            self._hook("put", self, item)
         if me is not None and s.post_yield:
             s.yield_point(me, "Queue.was_put")
 
@@ -846,16 +856,22 @@ class Queue:
                 return self._q.popleft()
             raise _rqueue.Empty
         s.yield_point(me, "Queue.get")
+        if not self._q:
+            if not block:
+                if self._hook is not None:
+                    self._hook("get_empty", self, None)
+                raise _rqueue.Empty
+            if timeout is not None and timeout < 0:
+                raise ValueError("'timeout' must be a non-negative number")
+            dl = None if timeout is None else s.now + timeout
+            s.block(me, lambda: bool(self._q), dl, what=self)
         if self._q:
-            return self._q.popleft()
-        if not block:
-            raise _rqueue.Empty
-        if timeout is not None and timeout < 0:
-            raise ValueError("'timeout' must be a non-negative number")
-        dl = None if timeout is None else s.now + timeout
-        s.block(me, lambda: bool(self._q), dl, what=self)
-        if self._q:
-            return self._q.popleft()
+            item = self._q.popleft()
+            if self._hook is not None:
+                self._hook("get", self, item)
+            return item
+        if self._hook is not None:
+            self._hook("get_timeout", self, None)
         raise _rqueue.Empty
 
     def get_nowait(self):
